@@ -1,3 +1,4 @@
+-- DRIVER-PROPS: C12 C02
 /- history-mode handler for C12 and C02: derives the commitment macro-ops of each block from x/bank's own
 events and the submitted messages, replays them on the model (ElysModel.Ledger.Commit), compares the model's
 books with the observed ones, and evaluates the property predicates on the observed state. -/
@@ -146,5 +147,11 @@ def handle (prop : String) (s : S) (i : Nat) (j : Json) : S × List Json :=
     ({ s with model := og }, if vs.isEmpty then [verdictOk i] else vs)
   | some "stats" => (s, [])
   | _ => (s, [verdictBad i "unknown t"])
+
+def run (prop : String) : IO Unit := do
+  let stdin ← IO.getStdin
+  let stdout ← IO.getStdout
+  let _ := prop
+  loop stdin stdout (handle prop) {} 0
 
 end Elys.Drv.CommitH
